@@ -1,4 +1,4 @@
-"""Private helpers of info/src/lib.rs: the char-vector editors (C16, C15), character references (C02),
+"""Private helpers of info/src/lib.rs: character references (C02),
 white-space normalisation and QName equality (C11), quote selection (C04).
 
 Clause labels carry the property they belong to (`Cxx:label`); the safety obligation of each function
@@ -132,10 +132,6 @@ pub mod xml_nom {
 
 // ---- extracted from /repo/info/src/lib.rs ----
 
-//@@ delete_char_range
-
-//@@ insert_char_at
-
 //@@ char_from_char10
 
 //@@ char_from_char16
@@ -168,20 +164,6 @@ FNS = {
     'is_char': Fn('nom/src/xmlchar.rs', None, 'is_char', props=['C02'], safety_props=['C02'],
                   sig_rules=[Rule('R12', r'^fn ', 'pub fn ', 'visibility restored inside the environment module (no runtime meaning)')],
                   ensures=[('C02:matches_production_2', 'r == p2_char(value as u32)')]),
-    'delete_char_range': Fn(
-        F, None, 'delete_char_range', props=['C16'], safety_props=['C16'],
-        ensures=[('C16:deletes_clipped_range',
-                  'r@ == value@.subrange(0, min_int(offset as int, value@.len() as int))'
-                  ' + value@.subrange(min_int(offset as int + count as int, value@.len() as int), value@.len() as int)')]),
-    'insert_char_at': Fn(
-        F, None, 'insert_char_at', props=['C16'], safety_props=['C16'],
-        requires=[('check_total', 'forall|s: &str| check.requires((s,))')],
-        ensures=[('C16:ok_is_spliced', f'r is Ok ==> r->Ok_0@ == {SPLICED}'),
-                 ('C16:ok_iff_check_true', 'r is Ok ==> check.ensures((new,), Ok::<bool, error::Error>(true))'),
-                 ('C16+C13:refusal_is_invalid_data',
-                  'r is Err ==> (r->Err_0 is InvalidData && check.ensures((new,), Ok::<bool, error::Error>(false)))'
-                  ' || check.ensures((new,), Err::<bool, error::Error>(r->Err_0))')],
-        rules=[R_TOSTR]),
     'char_from_char10': Fn(
         F, None, 'char_from_char10', props=['C02'], safety_props=['C02'],
         ensures=[('C02:denotes_parsed_number', 'r is Ok ==> spec_parse(value@, 10) == Some(r->Ok_0 as u32)'),
@@ -210,4 +192,4 @@ FNS = {
         rules=[R_CONTAINS, R_FMTQ1, R_FMTQ2]),
 }
 
-UNIT = dict(name='info_helpers', template=PRELUDE, fns=FNS, props=['C16'])
+UNIT = dict(name='info_helpers', template=PRELUDE, fns=FNS, props=[])
